@@ -66,8 +66,7 @@ Section Loop.
     intros fmts msgs HF HN. revert msgs.
     induction fmts as [| g rest IH]; intros msgs Hd; simpl; [exact I |].
     assert (Hg := Hd g (or_introl eq_refl)).
-    destruct (p g) as [[s |] | k]; try exact I.
-    { destruct auto_none_continues; [apply IH; intros; apply Hd; right; assumption | exact I]. }
+    destruct (p g) as [[s |] | k]; [exact I | destruct auto_none_continues; [apply IH; intros; apply Hd; right; assumption | exact I] |].
     simpl in Hg.
     destruct (catches auto_collect_caught k) eqn:C1; [apply IH; intros; apply Hd; right; assumption |].
     destruct (catches auto_skip_caught k) eqn:C2; [apply IH; intros; apply Hd; right; assumption |].
